@@ -59,6 +59,7 @@ inductive Op
   | get2 (k : Nat)
   | set (k : Nat) (r : Res)
   | fget (o : Nat)
+  | panic (v : Contract)        -- contract violation: the call panics, nothing changes
 
 structure Call where
   at_ : Nat
@@ -86,6 +87,15 @@ def parseCall (keys : List String) (seg : String) : Option (List String × Call)
   | "at" :: t :: kind :: c :: rest =>
     match t.toNat?, parseCid? c with
     | some t, some c =>
+      -- contract violations: nil key / unsupported key type / nil loader
+      let keyArg := kvOf "k=" rest
+      if keyArg = some "nil" && (kind = "load" || kind = "get2" || kind = "set") then
+        some (keys, { at_ := t, cid := c, op := .panic .nilKey })
+      else if (keyArg.map (·.startsWith "f64:")).getD false && (kind = "load" || kind = "get2" || kind = "set") then
+        some (keys, { at_ := t, cid := c, op := .panic .badKeyType })
+      else if kind = "load" && kvOf "loader=" rest = some "nil" then
+        some (keys, { at_ := t, cid := c, op := .panic .nilLoader })
+      else
       match kind with
       | "load" =>
         match kvOf "k=" rest, kvOf "loader=" rest with
@@ -138,6 +148,7 @@ inductive Ev
   | retFut (c : Nat) (n : Nat)
   | retPair (c : Nat) (shown : String)
   | retSet (c : Nat)
+  | retPanic (c : Nat)
   | lstart (ld : Nat) (key : String) (n : Nat)
   | lend (n : Nat) (shown : String)
   | fin
@@ -159,6 +170,7 @@ def parseEv (seg : String) : Nat × Ev :=
     match t.toNat?, parseCid? c with
     | some t, some c =>
       if x = "set" then (t, .retSet c)
+      else if x = "panic" then (t, .retPanic c)
       else if x.startsWith "fut#" then
         match (dropChars 4 x).toNat? with
         | some n => (t, .retFut c n)
@@ -193,6 +205,8 @@ structure M where
   nextTick : Nat
   invs : List (Wid × Nat × Nat)      -- loader invocation number ↦ (worker, start time, loader id)
   active : List Cid                  -- invoked and not yet returned
+  pcalled : List Cid := []           -- contract-violating calls that were issued and have not yet panicked
+  pdone : List Cid := []             -- … that have panicked
 
 def callOf (env : Env) (c : Nat) : Option Call := env.sc.calls.find? (·.cid = c)
 
@@ -249,6 +263,8 @@ def hashM (env : Env) (m : M) : UInt64 :=
   let h4 := (List.range env.sc.keys.length).foldl (fun h k => mixHash h (hash (s.map k))) h3
   let h5 := (List.range env.cfg.S).foldl (fun h i => mixHash h (hash (s.lock i))) h4
   let h6 := s.chan.foldl (fun h j => mixHash h (hash j)) h5
+  let h6 := m.pcalled.foldl (fun h c => mixHash h (hash c)) (mixHash h6 31)
+  let h6 := m.pdone.foldl (fun h c => mixHash h (hash c)) (mixHash h6 37)
   let h7 := m.seen.foldl (fun h f => mixHash h (hash f)) (mixHash h6 17)
   m.invs.foldl (fun h (w, t, l) => mixHash h (mixHash (hash w) (mixHash (hash t) (hash l)))) (mixHash h7 23)
 
@@ -361,26 +377,33 @@ def insertM (env : Env) (set : MSet) (m : M) : MSet × Bool :=
   let key := hashM env m
   if set.any (fun (k, _) => k == key) then (set, false) else (set ++ [(key, m)], true)
 
+/-- time box of the monitor: a closure larger than this, or more than `workLimit` states per scenario, makes the
+    monitor give up on the line (`ok unchecked …`: judged by the independent oracle only, counted in the evidence) -/
+def closureLimit : Nat := 3000
+def workLimit : Nat := 400000
+
 /-- all states reachable by unobserved steps (breadth first, de-duplicated) -/
 def closure (env : Env) (start : List M) : MSet :=
-  let rec go (fuel : Nat) (set : MSet) (frontier : List M) : MSet :=
+  let rec go (fuel : Nat) (n : Nat) (set : MSet) (frontier : List M) : MSet :=
     match fuel, frontier with
     | 0, _ => set
     | _, [] => set
     | fuel + 1, m :: rest =>
+      if n > closureLimit then set else
       let succs := branchSteps env m
       let (set, newOnes) := succs.foldl (fun (acc : MSet × List M) m' =>
         let (set', isNew) := insertM env acc.1 m'
         (set', if isNew then acc.2 ++ [m'] else acc.2)) (set, [])
-      go fuel set (rest ++ newOnes)
+      go fuel (n + newOnes.length) set (rest ++ newOnes)
   let (set0, fr0) := start.foldl (fun (acc : MSet × List M) m =>
     let (set', isNew) := insertM env acc.1 m
     (set', if isNew then acc.2 ++ [m] else acc.2)) ([], [])
-  go 200000 set0 fr0
+  go 200000 set0.length set0 fr0
 
 /-- is a step enabled that the fake clock would wait for? -/
 def urgent (env : Env) (m : M) : Option String :=
   let s := m.s
+  (m.pcalled.head?.map (fun c => s!"c{c} violates the contract and panics at once")).orElse fun _ =>
   (firstSome m.active (fun c =>
     let pc := s.cpc c
     if isRetPc s pc then some s!"c{c} can return"
@@ -396,6 +419,9 @@ def urgent (env : Env) (m : M) : Option String :=
 def overdue (env : Env) (m : M) (t : Nat) : Option String :=
   (firstSome env.sc.calls (fun c =>
     match m.s.cpc c.cid, c.op with
+    | .idle, .panic _ =>
+      if c.at_ < t && !(m.pcalled.contains c.cid) && !(m.pdone.contains c.cid) then
+        some s!"call c{c.cid} scheduled at {c.at_} was never issued" else none
     | .idle, .fget o =>
       (match m.s.cpc o with
        | .done _ => if c.at_ < t then some s!"call c{c.cid} (Future.Get2 of c{o}) was never issued" else none
@@ -435,12 +461,16 @@ def applyEv (env : Env) (m : M) : Ev → Except String M
         | .fget _ => call.at_ ≤ m.s.now      -- issued at its instant or as soon as its Load has returned
         | _ => call.at_ = m.s.now
       if !timeOk then .error s!"c{c} issued at {m.s.now}, scripted at {call.at_}" else
+      if let .panic _ := call.op then
+        (if m.pcalled.contains c || m.pdone.contains c then .error s!"c{c} issued twice"
+         else .ok { m with pcalled := m.pcalled ++ [c] }) else
       let act : Act :=
         match call.op with
         | .load k _ _ => .invLoad c k c
         | .get2 k => .invGet2 c k
         | .set k r => .invSet c k r
         | .fget o => .invFGet c o
+        | .panic _ => .delay 0
       match step? env.cfg m.s act with
       | some s' => .ok { m with s := s', active := m.active ++ [c] }
       | none => .error s!"c{c} cannot be invoked (already invoked, or Future.Get2 on a Load that has not returned in the model)"
@@ -470,6 +500,13 @@ def applyEv (env : Env) (m : M) : Ev → Except String M
         | _ => .error s!"c{c} returned a pair, model call returns something else"
       | none => .error "internal: return not enabled"
     else .error s!"c{c} returned ({shown}) but the model client is at {showCPc pc}"
+  | .retPanic c =>
+    if m.pcalled.contains c then
+      match (callOf env c).map (fun (x : Call) => x.op) with
+      | some (Op.panic v) =>
+        .ok { m with s := contractPanic m.s v, pcalled := m.pcalled.filter (· ≠ c), pdone := m.pdone ++ [c] }
+      | _ => .error s!"c{c} panicked but does not violate the contract"
+    else .error s!"c{c} panicked; in the model it {showCPc (m.s.cpc c)} (no contract violation pending)"
   | .retSet c =>
     match m.s.cpc c with
     | .setRet =>
@@ -516,9 +553,10 @@ def applyEv (env : Env) (m : M) : Ev → Except String M
 
 def allDone (env : Env) (m : M) : Option String :=
   (firstSome env.sc.calls (fun c =>
-    match m.s.cpc c.cid with
-    | .done _ => none
-    | pc => some s!"c{c.cid} has not returned in the model ({showCPc pc})")).orElse fun _ =>
+    match c.op, m.s.cpc c.cid with
+    | .panic _, _ => if m.pdone.contains c.cid then none else some s!"c{c.cid} (contract violation) has not panicked"
+    | _, .done _ => none
+    | _, pc => some s!"c{c.cid} has not returned in the model ({showCPc pc})")).orElse fun _ =>
   (firstSome (List.range env.cfg.P) (fun w =>
     match m.s.wpc w with
     | .idle => none
@@ -531,8 +569,11 @@ structure Acc where
   err : Option String
   maxSet : Nat
   nev : Nat
+  work : Nat := 0
+  last : Nat := 0                -- size of the last closure
+  unchecked : Bool := false
 
-def processEvent (env : Env) (acc : Acc) (tev : Nat × Ev) : Acc :=
+def processEvent1 (env : Env) (acc : Acc) (tev : Nat × Ev) : Acc :=
   match acc.err with
   | some _ => acc
   | none =>
@@ -547,7 +588,7 @@ def processEvent (env : Env) (acc : Acc) (tev : Nat × Ev) : Acc :=
         -- end of the observation: some tracked state (after the remaining unobserved steps) must be completely finished
         let cl := (closure env acc.set).map (·.2)
         match cl.find? (fun m => (allDone env m).isNone && (urgent env m).isNone) with
-        | some m => { acc with set := [m], nev := acc.nev + 1, maxSet := max acc.maxSet cl.length }
+        | some m => { acc with set := [m], nev := acc.nev + 1, maxSet := max acc.maxSet cl.length, last := cl.length }
         | none =>
           let why := (cl.head?.bind (fun m => (allDone env m).orElse fun _ => urgent env m)).getD "?"
           fail s!"scenario ended but in the model {why}"
@@ -579,7 +620,15 @@ def processEvent (env : Env) (acc : Acc) (tev : Nat × Ev) : Acc :=
           let keys := oks.map (hashM env)
           let ded := (oks.zip keys).foldl (fun (acc : List (UInt64 × M)) (m, k) =>
             if acc.any (fun (k', _) => k' == k) then acc else acc ++ [(k, m)]) []
-          { acc with set := ded.map (·.2), nev := acc.nev + 1, maxSet := max acc.maxSet cl.length }
+          { acc with set := ded.map (·.2), nev := acc.nev + 1, maxSet := max acc.maxSet cl.length, last := cl.length }
+
+/-- one event, with the time box: the state sets of the event count as work -/
+def processEvent (env : Env) (acc : Acc) (tev : Nat × Ev) : Acc :=
+  if acc.unchecked || acc.err.isSome then acc else
+  let acc' := processEvent1 env acc tev
+  let work := acc.work + acc'.last
+  if acc'.last > closureLimit || work > workLimit then { acc with unchecked := true, work := work }
+  else { acc' with work := work }
 
 /-- shard index of every key id, computed once per scenario (the table is captured by the partial application) -/
 def shardTable (S : Nat) (keys : List String) : Array Nat :=
@@ -606,6 +655,7 @@ def monitorScen (script impl : String) : String :=
         let evl := if evl.any (fun (_, e) => match e with | .fin => true | .hang _ => true | _ => false) then evl
                    else evl ++ [(0, Ev.bad "observation has no end marker")]
         let acc := evl.foldl (processEvent env) { set := [m0], err := none, maxSet := 1, nev := 0 }
+        if acc.unchecked then s!"ok unchecked (monitor time box: state sets too large at event {acc.nev}, work {acc.work})" else
         match acc.err with
         | some e => "reject " ++ e
         | none => s!"ok events={acc.nev} maxset={acc.maxSet}"
